@@ -111,7 +111,10 @@ def tlc(module, cfg, env=None, workers=1, xmx="3g", timeout=3600, extra=None, de
     meta = os.path.join(BUILD, "tlcmeta", "%d-%d-%s" % (os.getpid(), _tlc_counter[0], module))
     os.makedirs(meta, exist_ok=True)
     e = dict(os.environ)
-    jopts = "-Xss1g"
+    # the JVM's temporary directory inside the run's meta directory (TLC / SANY leave one directory per run behind otherwise)
+    jtmp = os.path.join(meta, "tmp")
+    os.makedirs(jtmp, exist_ok=True)
+    jopts = "-Xss1g -Djava.io.tmpdir=" + jtmp
     if deque:
         jopts += " -Dtlc2.tool.queue.IStateQueue=StateDeque"
     e["JAVA_TOOL_OPTIONS"] = jopts
